@@ -213,8 +213,8 @@ func verifC06Panel() []*verifC06Query {
 		svc  string
 		tags []string
 	}
-	for _, st := range []svcTags{{"web", []string{"a"}}, {"api", []string{"a", "b"}}, {"db", []string{"b"}}} {
-		st := st
+	for _, tq := range verifC06TagQueries {
+		st := svcTags{tq.svc, tq.tags}
 		add("ServiceTagNodes", st.svc+","+strings.Join(st.tags, "+"), func(s *state.Store, ws memdb.WatchSet) (verifC06Obs, error) {
 			idx, sns, err := s.ServiceTagNodes(ws, st.svc, st.tags, em(), "")
 			return obs(idx, verifC06Bag(sns), err)
@@ -279,8 +279,8 @@ func verifC06Panel() []*verifC06Query {
 			q.Gw, q.Svc = "terminating", sp.svc
 		}
 	}
-	for _, st := range []svcTags{{"web", []string{"a"}}, {"db", []string{"b"}}} {
-		st := st
+	for _, tq := range verifC06TagQueries {
+		st := svcTags{tq.svc, tq.tags}
 		add("CheckServiceTagNodes", st.svc+","+strings.Join(st.tags, "+"), func(s *state.Store, ws memdb.WatchSet) (verifC06Obs, error) {
 			idx, csn, err := s.CheckServiceTagNodes(ws, st.svc, st.tags, em(), "")
 			return obs(idx, verifC06Bag(csn), err)
